@@ -111,7 +111,8 @@ def witness(cx: Ctx, cell, reg) -> Optional[Dict[str, int]]:
                     used |= b.symbols()
                     changed = True
     others = [s for s in others if s in used]
-    if any(not cx.bounds[s][2] for s in others):
+    finite = getattr(cx, 'sym_values', {})
+    if any(not cx.bounds[s][2] and s not in finite for s in others):
         return None
     for vals in itertools.product(range(0, 4), repeat=len(base)):
         asg: Dict[str, Fraction] = {}
@@ -133,6 +134,17 @@ def witness(cx: Ctx, cell, reg) -> Optional[Dict[str, int]]:
                 return dict(asg) if hit else None
             s = others[i]
             lo, hi, _ = cx.bounds[s]
+            if s in finite:
+                # a draw from a literal list: exactly its elements
+                try:
+                    cands = sorted({f_.eval(asg) for f_ in finite[s]})
+                except KeyError:
+                    return None
+                for v in cands:
+                    r = rec(i + 1, {**asg, s: Fraction(v)})
+                    if r:
+                        return r
+                return None
             try:
                 l, h_ = lo.eval(asg), hi.eval(asg)
             except KeyError:
@@ -359,11 +371,11 @@ def run(index: RepoIndex, rep) -> None:
     rep.rule('C13.R1', 'error discipline: every raise is ValueError; parameters are not '
              'validated by assert', floor=14)
     rep.rule('C13.R2', 'draws of several cells/colours/columns are without replacement', floor=6)
-    rep.rule('C13.R3', 'advertised inventory by data flow', floor=10)
+    rep.rule('C13.R3', 'advertised inventory by data flow', floor=10, undecided_allowed=2)
     rep.rule('C13.R4', 'the agent cell is separated from exits, obstacles, telepods and '
-             'blocking cells (proved / refuted with witness / undecided)', floor=25)
+             'blocking cells (proved / refuted with witness / undecided)', floor=25, undecided_allowed=0)
     rep.rule('C13.R5', 'a full wall boundary is drawn; later non-wall writes are inside it',
-             floor=8)
+             floor=8, undecided_allowed=1)
     resets = index.registry('reset', 8)
     om = ObjectModel(index)
     blocking = blocking_classes(om)
@@ -681,7 +693,7 @@ def inventory(index, rep, rule, resets, runs) -> None:
         return [w for w in cx.writes if w.cls == cls]
 
     # the exit placed by `empty` (and by resets built on it) survives the later writes
-    for name in ('empty', 'dynamic_obstacles', 'keydoor', 'crossing', 'teleport'):
+    for name in ('empty', 'dynamic_obstacles', 'keydoor', 'crossing', 'teleport', 'memory'):
         for cx in runs.get(name, []):
             path = ','.join(cx.path) or '-'
             for e in writes_of(cx, 'Exit'):
